@@ -73,19 +73,22 @@ def dhtv_for(pa, F, d):
     """aligner objects live as long as the worker process and are reused for
     every scene with the same configuration - the way a user processes many
     utterances (results must not depend on that history, C20)"""
+    metric = d.choice(['cos', 'cos', 'euclidean', 'multiply'])
     if F == 257:
-        name = 'default-512'
+        name = f'default-512-{metric}'
         if name not in _ALIGNERS:
-            _ALIGNERS[name] = pa.DHTVPermutationAlignment.from_stft_size(512)
+            _ALIGNERS[name] = pa.DHTVPermutationAlignment.from_stft_size(
+                512, similarity_metric=metric)
         return _ALIGNERS[name], name
     width = {33: 12, 65: 24}[F]
     shift = width // 6    # keeps >= 2/3 overlap also for the stretched ends
     start = d.choice([F // 4, F // 3])
-    name = f'custom-{F}-{start}-{width}-{shift}'
+    name = f'custom-{F}-{start}-{width}-{shift}-{metric}'
     if name not in _ALIGNERS:
         _ALIGNERS[name] = pa.DHTVPermutationAlignment(
             stft_size=2 * (F - 1), segment_start=start, segment_width=width,
-            segment_shift=shift, main_iterations=20, sub_iterations=2)
+            segment_shift=shift, main_iterations=20, sub_iterations=2,
+            similarity_metric=metric)
     return _ALIGNERS[name], name
 
 
@@ -141,7 +144,8 @@ def pipeline(d, ctx):
     iterations = d.choice([5, 10, 20])
     ctx.describe(K=K, D=D, F=F, T=T, model=model_kind, plan=plan_name,
                  field=fk, beta=beta, iterations=iterations, snr_db=sc['snr_db'])
-    ctx.label(model_kind, f'F={F}', f'K={K}', fk, plan_name.split('-')[0])
+    ctx.label(model_kind, f'F={F}', f'K={K}', fk, plan_name.split('-')[0],
+              'metric=' + plan_name.split('-')[-1])
     trainer = CACGMMTrainer() if model_kind == 'cacgmm' else CWMMTrainer()
     model = ctx.lib(trainer.fit, Y, initialization=init, iterations=iterations)
     post = ctx.lib(model.predict, Y)                                      # (F, K, T)
